@@ -129,9 +129,22 @@ def _set_hdr(h, k, v):
         h.packet_seq_control.seq_flags = _flags(v)
 
 
+def _refusal(e):
+    """[1, exception class] for an exception raised by ONE step of a history (an assignment the library refuses); the
+    step's row is this prefix followed by what the object shows afterwards, and the history goes on"""
+    if isinstance(e, (KeyboardInterrupt, SystemExit, MemoryError)):
+        raise e
+    return [1, core.canon_code(core.classify_exception(e))]
+
+
 def _hdr_op(h, o):
     k = o[0] if o else 9
-    _set_hdr(h, k, o[1] if len(o) > 1 else 0)
+    try:
+        _set_hdr(h, k, o[1] if len(o) > 1 else 0)
+    except BaseException as e:  # noqa
+        # a setter that validates at assignment time: one row of the history (the unchanged library never raises here,
+        # so its rows keep their format), not the end of the case
+        return _refusal(e) + _view(h)
     if k == 8:
         return _row(h.pack)
     if k == 10:
@@ -233,16 +246,21 @@ def impl(op, a):
         rows = []
         for o in a[4:]:
             k = o[0] if o else 9
-            if 20 <= k < 30:
-                _set_hdr(p.sp_header, k - 20, o[1] if len(o) > 1 else 0)
-            elif k in (30, 31):
-                x = _part(o[1:], len(o) % 2)
-                if x is not None:
-                    keep.append((x, bytes(x)))
-                if k == 30:
-                    p.sec_header = x
-                else:
-                    p.user_data = x
+            try:
+                if 20 <= k < 30:
+                    _set_hdr(p.sp_header, k - 20, o[1] if len(o) > 1 else 0)
+                elif k in (30, 31):
+                    x = _part(o[1:], len(o) % 2)
+                    if x is not None:
+                        keep.append((x, bytes(x)))
+                    if k == 30:
+                        p.sec_header = x
+                    else:
+                        p.user_data = x
+            except BaseException as e:  # noqa
+                # a refused assignment is one row (class + what the packet shows afterwards); the history goes on
+                rows.append(_refusal(e) + [p.apid, p.seq_count, int(p.sec_header_flag), p.sp_header.data_len])
+                continue
             if k == 32:
                 rows.append(_row(p.pack))
             elif k == 33:
@@ -594,6 +612,16 @@ def _undoc_rows(op, ires):
     return out
 
 
+def _refused_steps(op, a, ires):
+    """positions (in the operation list of a history) of the assignments the library refused at once: such a step
+    changed nothing, so the unchanged code run WITHOUT these steps is what the rest of the history is compared with"""
+    if op not in (120, 123) or ires[0] != [0]:
+        return []
+    ops, n = (a[2:], 11) if op == 120 else (a[4:], 4)
+    return [j for j, (o, r) in enumerate(zip(ops, ires[1:])) if _refused_step(r, n) and
+            ((o[0] if o else 9) in HDR_FIELD_POS if op == 120 else 20 <= (o[0] if o else 9) < 32)]
+
+
 def oracle_spec(case, ires):
     op, a = case
     out = []
@@ -603,7 +631,11 @@ def oracle_spec(case, ires):
     elif op == 102 and ires[0] == [0]:
         out = [(150, [ires[1]])]
     if _undoc_rows(op, ires):
-        out.append((op, a))     # what the faithful model of the unchanged code does on the very same call (always last)
+        # what the faithful model of the unchanged code does on the very same call (always last) - for a history in which
+        # the library refused assignments at once: on the history without those (no-op) steps
+        first = 2 if op == 120 else 4
+        drop = set(_refused_steps(op, a, ires))
+        out.append((op, a[:first] + [o for j, o in enumerate(a[first:]) if j not in drop] if drop else a))
     return out
 
 
@@ -616,8 +648,10 @@ def oracle_undocumented(op, a, ires, sres):
     if not und:
         return None
     model = sres[-1] if sres else None
+    drop = _refused_steps(op, a, ires)
     for i in und:
-        m = model[i] if model is not None and i < len(model) else (model[0] if model and model[0][:1] == [1] else None)
+        mi = i - sum(1 for j in drop if j + 1 < i)       # the model ran without the refused steps (see oracle_spec)
+        m = model[mi] if model is not None and mi < len(model) else (model[0] if model and model[0][:1] == [1] else None)
         if m != ires[i]:
             what = "raises" if i == 0 else "observation %d raises" % i
             return ("C01/%s/undocumented-exception-class" % ENTRY.get(op, "op%d" % op),
@@ -837,12 +871,47 @@ def out_of_range_pack(entry, what, cur, row):
     return None
 
 
+def _refused_step(row, n):
+    """a history row of a setter step the library refused: [1, exception class] + the n values the object shows afterwards
+    (an accepted step's row is just the n values; the unchanged library never refuses an assignment)"""
+    return len(row) == n + 2 and row[0] == 1
+
+
+SETTER_NAMES = {0: "apid", 6: "packet_id.apid", 1: "seq_count", 7: "packet_seq_control.seq_count", 5: "data_len", 2: "seq_flags",
+                13: "packet_seq_control.seq_flags", 3: "packet_type", 11: "packet_id.ptype", 4: "sec_header_flag",
+                12: "packet_id.sec_header_flag"}
+
+
+def refused_setter(entry, what, k, v, row, unchanged):
+    """An assignment the library REFUSED at once (k1-style validation in a setter).  The property leaves open WHEN an
+    out-of-range APID / sequence count / data length is refused (today: by the next pack()), so for a value outside the
+    field's range an immediate ValueError that leaves the object as it was is as good as today's behaviour; an in-range
+    value must be accepted, the refusal must be a ValueError (for the fields whose ranges the property does not name a
+    TypeError is tolerated too) and must not leave the object changed.  `unchanged`: the object still shows the values
+    it had before the step."""
+    m = HDR_RANGES[k]
+    if 0 <= v < m:
+        return ("C01/%s.setters/valid-refused" % entry,
+                "%s: the in-range assignment %s = %d was refused: %s" % (what, SETTER_NAMES[k], v, core.ERR_NAMES.get(row[1], row[1])))
+    if row[1] not in ((1, 2, 3) if k in RANGE_SETTERS else (1, 2, 3, 20)):
+        return ("C01/%s.setters/out-of-range-wrong-error" % entry,
+                "%s: %s = %d (out of range) was refused with %s, the property prescribes ValueError" % (
+                    what, SETTER_NAMES[k], v, core.ERR_NAMES.get(row[1], row[1])))
+    if not unchanged:
+        return ("C01/%s.setters/refusal-changed-object" % entry,
+                "%s: %s = %d was refused (%s), yet the object shows %s afterwards" % (
+                    what, SETTER_NAMES[k], v, core.ERR_NAMES.get(row[1], row[1]), row[2:]))
+    return None
+
+
 def oracle_hdr_history(a, ires):
     """after any sequence of setter calls the object reports the assigned values; when APID, sequence count and data
     length are in range it packs to the six octets the standard prescribes for them, reports data length + 7 and equals
     a freshly constructed header with the same values; when one of them is out of range pack() refuses with ValueError
     (nothing is encoded), the object is unchanged by the refusal and a later in-range assignment heals it; the caller's
-    PacketId / PacketSeqCtrl are untouched"""
+    PacketId / PacketSeqCtrl are untouched.  An out-of-range value may just as well be refused by the assignment itself
+    (ValueError, object unchanged, see refused_setter): then nothing was assigned and the history goes on with the old
+    values."""
     l, kind = a[0], a[1][0]
     t, ap, c, d, s, f, v = l
     cur = [v, t, s, ap, f, c, d]
@@ -853,9 +922,16 @@ def oracle_hdr_history(a, ires):
     rows = ires[1:]
     for n, (o, row) in enumerate(zip(a[2:], rows)):
         k = o[0] if o else 9
-        if k in HDR_FIELD_POS:
-            cur[HDR_FIELD_POS[k]] = o[1]
         what = "path %d, start %s, operations %s" % (kind, l, a[2:2 + n + 1])
+        if k in HDR_FIELD_POS:
+            if _refused_step(row, 11):
+                shown = row[2:]
+                same = shown == expected_view(cur) if range_ok(cur) and others_ok(cur) else shown[:7] == cur and shown[10:] == [6]
+                r = refused_setter("SpacePacketHeader", what, k, o[1], row, same)
+                if r is not None:
+                    return r
+                continue
+            cur[HDR_FIELD_POS[k]] = o[1]
         if not range_ok(cur):
             # the range checks come before anything is encoded: judged whatever version / type / flags are
             if k == 8:
@@ -883,6 +959,12 @@ def oracle_hdr_history(a, ires):
         return ("C01/SpacePacketHeader.from_composite_fields/caller-object-modified",
                 "the PacketId / PacketSeqCtrl passed in were changed by operations on the header: %s -> %s" % ([t, s, ap, f, c], rows[-1]))
     return None
+
+
+def mandatory_missing(cur, sec, ud):
+    """'If the secondary header flag in the primary header is set, the secondary header in mandatory.  If it is not set,
+    the user data is mandatory.'"""
+    return sec is None if cur[2] else ud is None
 
 
 def sp_expected(cur, sec, ud):
@@ -913,17 +995,38 @@ def oracle_space_packet(op, a, ires, err, code):
             return ("C01/SpacePacket.pack/caller-buffer-modified", "pack() changed the caller's secondary header / user data buffer")
         return None
     if err:
+        if mandatory_missing(cur, sec, ud) and code in (1, 2, 3):
+            # the part the header's flag makes mandatory is missing: no packet can ever be packed from these arguments
+            # (today pack() refuses); refusing them at construction with ValueError is the same refusal, earlier
+            return None
         return ("C01/SpacePacket/valid-refused", "%s -> %s" % (a[:3], ires))
     rows = ires[1:]
     for n, (o, row) in enumerate(zip(a[4:], rows)):
         k = o[0] if o else 9
-        if 20 <= k < 30 and (k - 20) in HDR_FIELD_POS:
-            cur[HDR_FIELD_POS[k - 20]] = o[1]
-        elif k == 30:
-            sec = o[2:] if o[1] else None
-        elif k == 31:
-            ud = o[2:] if o[1] else None
         what = "start %s, operations %s" % (a[:3], a[4:4 + n + 1])
+        if 20 <= k < 30 and (k - 20) in HDR_FIELD_POS:
+            if _refused_step(row, 4):
+                r = refused_setter("SpacePacket", what, k - 20, o[1], row, row[2:] == [cur[3], cur[5], cur[2], cur[6]])
+                if r is not None:
+                    return r
+                continue
+            cur[HDR_FIELD_POS[k - 20]] = o[1]
+        elif k in (30, 31):
+            new = o[2:] if o[1] else None
+            if _refused_step(row, 4):
+                # replacing a part: refusable (ValueError, TypeError) only when the packet could not be packed with it -
+                # the mandatory part taken away; nothing changes then (the following pack / compare rows show it)
+                if not mandatory_missing(cur, new if k == 30 else sec, new if k == 31 else ud):
+                    return ("C01/SpacePacket/valid-refused", "%s: replacing the %s was refused: %s" % (
+                        what, "secondary header" if k == 30 else "user data", core.ERR_NAMES.get(row[1], row[1])))
+                if row[1] not in (1, 2, 3, 20) or row[2:] != [cur[3], cur[5], cur[2], cur[6]]:
+                    return ("C01/SpacePacket/refusal-changed-object", "%s: refused with %s, the packet shows %s afterwards" % (
+                        what, core.ERR_NAMES.get(row[1], row[1]), row[2:]))
+                continue
+            if k == 30:
+                sec = new
+            else:
+                ud = new
         if not range_ok(cur):
             # the header is packed first: refused with ValueError whatever the parts are; nothing else changes
             if k == 32:
@@ -946,6 +1049,8 @@ def oracle_space_packet(op, a, ires, err, code):
             elif row != [0] + exp:
                 return ("C01/SpacePacket.pack/layout", "%s: pack() = %s, expected %s" % (what, row, exp))
         elif k == 33:
+            if mandatory_missing(cur, sec, ud) and _refused(row):
+                continue    # no second packet can be built without the mandatory part (refused at construction): nothing to compare
             if row != [0, 1, 1, 1, 1]:
                 return ("C01/SpacePacket.__eq__", "%s: the packet does not equal an independently built one with the same parts: %s" % (what, row))
         elif row != [cur[3], cur[5], cur[2], cur[6]]:
